@@ -124,7 +124,7 @@ func cmdSchedRun(args []string) error {
 					if err == nil {
 						en.Flush(ctx, w)
 					}
-					line = fmt.Sprintf("%v|%v|%s", cont, err != nil, w.String())
+					line = fmt.Sprintf("%v|%v|%v|%s", cont, err != nil, false, w.String())
 				}()
 				gm.Lock()
 				got[s] = line
